@@ -268,6 +268,15 @@ Theorem C12_fingerprint_follows_settings : forall e ops c,
 Proof. exact fingerprint_follows_settings. Qed.
 Print Assumptions C12_fingerprint_follows_settings.
 
+(* Transport middleware (WrapRoundTripFunc; round 7): a pass-through middleware is transparent - a sequence with
+   such installations anywhere, before or after Clone, leaves the client in the state of the sequence without them
+   (so every theorem above holds for clients and clones carrying middleware); in the code the clone's chain ends in
+   the CLONE's roundTrip (generated fact on Transport.Clone). *)
+Theorem C12_transport_middleware_transparent : forall e ops c,
+  snd (run e c ops) = snd (run e c (no_wrap ops)) /\ clone_middleware_bound_to_clone = true.
+Proof. exact (fun e ops c => conj (wrap_transparent altsvc_only_unforced e ops c) gen_clone_middleware). Qed.
+Print Assumptions C12_transport_middleware_transparent.
+
 (* the three defects of the pinned tree, as theorems about the pinned variants of the same functions *)
 Theorem C12_tls_uniform_pinned_refuted :
   exists host o, sec (tls_view_pinned S3 false host o) <> sec (effective host o).
